@@ -109,8 +109,24 @@ def run(F, rep, tier):
         if r.get("k") == "MethodCall" and r["m"] == "next" and (callee(r) or "").endswith("Next::next"):
             inner = peel(r["recv"])
             ok = callee(inner) == P + "precedence" and peel(inner["args"][0]).get("name") == "op"
+    # ... on every path: no other sub-parse may produce an operand inside infix() (a special case such as
+    # `T::AssertEqual => expression(ctx)?` makes that operator right-associative)
+    others = []
+    for c_ in nodes(fn_body(fn_infix), "Call"):
+        cal = callee(c_) or ""
+        if not cal.startswith(P) or "Result<(sylt_parser::Context" not in (c_.get("ty") or ""):
+            continue
+        if last(cal) in ("arrow_call", "sub_assignable"):
+            continue      # the postfix forms (`->`, call, index, access) continue the left operand
+        if last(cal) == "parse_precedence" and len(c_["args"]) > 1:
+            lv_ = peel(c_["args"][1])
+            if lv_.get("k") == "MethodCall" and lv_["m"] == "next" and callee(peel(lv_["recv"])) == P + "precedence":
+                continue
+        others.append("%s @ %s" % (last(cal), line_of(c_)))
+    ok = ok and not others
     rep.ob("LEFT-ASSOC", "infix|rhs-at-next-level", ok,
-           "the right operand of every binary operator is parsed at precedence(op).next(): operators of one level associate to the left (%s)" % (pp(rhs) if rhs else None),
+           "the right operand of every binary operator is parsed at precedence(op).next(): operators of one level associate to the left (%s)%s" % (
+               pp(rhs) if rhs else None, "; but infix() also parses an operand with %s" % others if others else ""),
            fn_infix["sp"])
     # ---- UNARY
     fn_un, utab, uprec = pipe.parser_unary(F)
